@@ -18,11 +18,11 @@ def attr_num(resp, key):
     return None
 
 
-def pair_sim_vs_exec(ck, prog, cfg, oi, pair_type='cp', stubs=None, amp=None):
+def pair_sim_vs_exec(ck, prog, cfg, oi, pair_type='cp', stubs=None, amp=None, decimals=(6, 6), native_pred=None, nice=()):
     kinds = KIND_CFGS[cfg]; ai = 1 - oi
     def body(it):
         c = it.ctx
-        st = setup_pair(it, kinds, pair_type, amp=amp)
+        st = setup_pair(it, kinds, pair_type, amp=amp(c) if callable(amp) else amp, decimals=decimals)
         off = c.sym('offer', 128)
         common_inv(c, st)
         # 1. the quote, in the state before the offer arrives
@@ -44,7 +44,8 @@ def pair_sim_vs_exec(ck, prog, cfg, oi, pair_type='cp', stubs=None, amp=None):
             inf = mk_info(aname(kinds, oi), [])
         it.extra = dict(st=st, sim=sim, offer=off)
         return enter(it, CP, 'execute', mk_env(it, 10**18), inf, msg)
-    tag = 'pair.%s.%s.o%d' % (pair_type, cfg, oi)
+    tag = 'pair.%s.%s.o%d' % (pair_type, cfg, oi) + ('' if tuple(decimals) == (6, 6) else '.d%d_%d' % tuple(decimals))
+    kw = dict(native_pred=native_pred, nice=list(nice)) if native_pred else {}
     paths = ck.explore(prog, body, tag, stubs=stubs, validate=stubs is None)
     n = 0
     for p in paths:
@@ -55,12 +56,12 @@ def pair_sim_vs_exec(ck, prog, cfg, oi, pair_type='cp', stubs=None, amp=None):
         g = lambda name: [x for x, f in zip(sim.fields, prog.adts[sim.name]['variants'][0]['fields']) if f[0] == name][0].fields[0]
         eff = effects(resp_of(p), PAIR); A = aname(kinds, ai); resp = resp_of(p)
         nf = ledger_after(p, 'collected_protocol_fees')
-        ck.oblige('C14.pair.sim_eq_exec.return.' + tag, p, total(eff, 'send', A) != g('return_amount'), 'the transfer equals the quoted return')
-        ck.oblige('C14.pair.sim_eq_exec.protocol.' + tag, p, nf[ai] - st['f'][ai] != g('protocol_fee_amount'), 'the recorded protocol fee equals the quoted one')
-        ck.oblige('C14.pair.sim_eq_exec.burn.' + tag, p, total(eff, 'burn', A) != g('burn_fee_amount'), 'the burned amount equals the quoted burn fee')
+        ck.oblige('C14.pair.sim_eq_exec.return.' + tag, p, total(eff, 'send', A) != g('return_amount'), 'the transfer equals the quoted return', **kw)
+        ck.oblige('C14.pair.sim_eq_exec.protocol.' + tag, p, nf[ai] - st['f'][ai] != g('protocol_fee_amount'), 'the recorded protocol fee equals the quoted one', **kw)
+        ck.oblige('C14.pair.sim_eq_exec.burn.' + tag, p, total(eff, 'burn', A) != g('burn_fee_amount'), 'the burned amount equals the quoted burn fee', **kw)
         for key in ('spread_amount', 'swap_fee_amount', 'return_amount', 'protocol_fee_amount', 'burn_fee_amount'):
             v = attr_num(resp, key)
-            ck.oblige('C14.pair.sim_eq_exec.attr.%s.%s' % (key, tag), p, True if v is None else (v != g(key)), 'the %s recorded in the response equals the quoted one' % key)
+            ck.oblige('C14.pair.sim_eq_exec.attr.%s.%s' % (key, tag), p, True if v is None else (v != g(key)), 'the %s recorded in the response equals the quoted one' % key, **kw)
     ck.require(n >= 1, tag + ': no Ok path through quote + execution')
 
 
